@@ -12,6 +12,7 @@ from iOpt.problem import Problem
 from iOpt.trial import FunctionValue, Point
 
 EXACT = ("cones", "absum", "linear", "bowl", "sines", "pwl1")
+# "needle" (not drawn by default): zero except for a cone-shaped well of half-width w and depth h around c
 ROUGH = ("const", "steps", "quantised")
 
 
@@ -52,6 +53,9 @@ def _evaluate(obj, u):
                 lam = (x - t[i - 1]) / (t[i] - t[i - 1])
                 return v[i - 1] + lam * (v[i] - v[i - 1])
         return v[-1]
+    if fam == "needle":
+        d = math.sqrt(sum((ui - ci) * (ui - ci) for ui, ci in zip(u, obj["c"])))
+        return -obj["h"] * max(0.0, 1.0 - d / obj["w"])
     if fam == "const":
         return obj["c"]
     if fam == "steps":
@@ -90,6 +94,8 @@ def _exact_min(obj):
         return tot
     if fam == "pwl1":
         return min(obj["v"])
+    if fam == "needle":
+        return -obj["h"]
     raise ValueError("no exact minimum for %r" % fam)
 
 
@@ -108,6 +114,8 @@ def lipschitz(obj):
     if fam == "pwl1":
         t, v = obj["t"], obj["v"]
         return max(abs(v[i] - v[i - 1]) / (t[i] - t[i - 1]) for i in range(1, len(t)))
+    if fam == "needle":
+        return obj["h"] / obj["w"]
     raise ValueError("no Lipschitz constant for %r" % fam)
 
 
@@ -129,6 +137,8 @@ def scaled(obj, factor):
         o["a"] = [a * factor for a in obj["a"]]
     elif fam == "pwl1":
         o["v"] = [v * factor for v in obj["v"]]
+    elif fam == "needle":
+        o["h"] = obj["h"] * factor
     else:
         raise ValueError(fam)
     return o
@@ -156,6 +166,15 @@ class LoggedProblem(Problem):
         self.floatVariableNames = np.array(["x%d" % i for i in range(n)], dtype=str)
         self.lowerBoundOfFloatVariables = np.array(lower, dtype=np.double)
         self.upperBoundOfFloatVariables = np.array(upper, dtype=np.double)
+        bt = self.style.get("bounds")
+        if bt and all(float(v).is_integer() for v in list(lower) + list(upper)):
+            # integer-valued bounds written the way several shipped problems write them (GKLS: dimension * [-1])
+            if bt == "intlist":
+                self.lowerBoundOfFloatVariables = [int(v) for v in lower]
+                self.upperBoundOfFloatVariables = [int(v) for v in upper]
+            else:
+                self.lowerBoundOfFloatVariables = np.array([int(v) for v in lower])
+                self.upperBoundOfFloatVariables = np.array([int(v) for v in upper])
         self._lo = [float(v) for v in lower]
         self._w = [float(b) - float(a) for a, b in zip(lower, upper)]
         self.obj = obj
